@@ -118,6 +118,29 @@ func init() {
 		}
 		return in.randByte(i)
 	}
+	// vIsUnderscoreUUID(id): id == "_" + canonical rendering of the last 16 crypto-stream bytes with version/variant forced
+	intrinsics["vIsUnderscoreUUID"] = func(in *Interp, fn *ssa.Function, a []Value) Value {
+		id := termArg(in, a[0])
+		pos, _ := in.Ghost["rand.pos"].(int)
+		if pos < 16 {
+			return smt.False
+		}
+		parts := []*smt.Term{smt.StrLit("_")}
+		for i := 0; i < 16; i++ {
+			b := in.randByte(pos - 16 + i)
+			if i == 6 {
+				b = smt.BVOr(smt.BVAnd(b, smt.BV(0x0f, 8)), smt.BV(0x40, 8))
+			}
+			if i == 8 {
+				b = smt.BVOr(smt.BVAnd(b, smt.BV(0x3f, 8)), smt.BV(0x80, 8))
+			}
+			if i == 4 || i == 6 || i == 8 || i == 10 {
+				parts = append(parts, smt.StrLit("-"))
+			}
+			parts = append(parts, HexNibble(smt.Extract(b, 7, 4)), HexNibble(smt.Extract(b, 3, 0)))
+		}
+		return smt.Eq(id, smt.StrConcat(parts...))
+	}
 	intrinsics["vRandInstall"] = func(in *Interp, fn *ssa.Function, a []Value) Value { return nil }
 	intrinsics["vHex"] = func(in *Interp, fn *ssa.Function, a []Value) Value {
 		b := a[0].(*smt.Term)
